@@ -31,6 +31,32 @@ def run_case(c):
                               lambda: progressions.to_chords(a, k), listof(names)))
             if d == 1:
                 R.append(call("table", {"k": list(k), "seventh": sv}, lambda: (chords.sevenths if sv else chords.triads)(k), listof(names)))
+        if d == 1:
+            # the same questions in a freshly forked interpreter, sevenths asked before triads (nothing may depend on the order)
+            import subprocess, sys, os, json
+            script = ("import sys, os, json; sys.path.insert(0, os.environ['MINGUS_REPO'])\n"
+                      "from mingus.core import chords, progressions\n"
+                      "k = sys.argv[1]; out = {}\n"
+                      "for key, fn in (('t7', lambda: chords.sevenths(k)), ('t3', lambda: chords.triads(k)), ('f3', lambda: chords.tonic(k)),\n"
+                      "                ('p3', lambda: progressions.to_chords(['I'], k)), ('f7', lambda: chords.tonic7(k))):\n"
+                      "    try: out[key] = ['ok', fn()]\n"
+                      "    except Exception as e: out[key] = ['err', type(e).__name__]\n"
+                      "print(json.dumps(out))\n")
+            pr = subprocess.run([sys.executable, "-W", "ignore", "-c", script, k], stdout=subprocess.PIPE, stderr=subprocess.PIPE, text=True)
+            if pr.returncode != 0:
+                raise RuntimeError("fresh interpreter failed: " + pr.stderr[-800:])
+            res = json.loads(pr.stdout.strip().splitlines()[-1])
+            def got(key):
+                def f():
+                    if res[key][0] != "ok":
+                        raise RuntimeError(res[key][1])
+                    return res[key][1]
+                return f
+            R.append(call("table", {"k": list(k), "seventh": True, "order": "sevenths first"}, got("t7"), listof(names)))
+            R.append(call("table", {"k": list(k), "seventh": False, "order": "sevenths first"}, got("t3"), listof(names)))
+            R.append(call("function_name", {"k": list(k), "d": 1, "seventh": False, "name": "tonic", "alias": False, "order": "sevenths first"}, got("f3"), names))
+            R.append(call("function_name", {"k": list(k), "d": 1, "seventh": True, "name": "tonic7", "alias": False, "order": "sevenths first"}, got("f7"), names))
+            R.append(call("to_chords", {"k": list(k), "d": 1, "acc": 0, "suffix": "", "prog": ["I"], "order": "sevenths first"}, got("p3"), listof(names)))
     elif kd == "numeral":
         k, d, acc, sfx = txt(c["k"]), c["d"], c["acc"], c["suffix"]
         for roman in (NUM[d - 1], NUM[d - 1].lower()):
